@@ -443,19 +443,21 @@ def split_task(envr, item):
         s, info = abs_string(c, 'a')
         sep = sym.s_opaque(c.opaque_text('Sep', 1))
         maxsplit = -1 if mk == 'all' else c.named_int('maxsplit')
-        run_contract(envr, c, 'AnsiString._split', s, [sep, maxsplit, bool(right)], {}, CL_SPLIT)
+        # through the public wrapper (split / rsplit), whose body hands sep, maxsplit and the direction to _split
+        run_contract(envr, c, 'AnsiString.rsplit' if right else 'AnsiString.split', s, [sep, maxsplit], {}, CL_SPLIT,
+                     fields={'r': bool(right)})
 
     def pool(envr):
         from pyvc.argkinds import native_receivers
         for base in native_receivers(envr):
             for sep in ('a', 'b', 'ab', ' ', 'X', 'bb', 'Xa'):
                 for ms in (-1, 0, 1, 2):
-                    yield ('AnsiString._split', base, [sep, ms, bool(right)], {}, {})
+                    yield ('AnsiString.rsplit' if right else 'AnsiString.split', base, [sep, ms], {}, {'r': bool(right)})
     return ContractRun(body, CL_SPLIT, use=('ABS',), pool=pool)
 
 
 GROUPS.append(Group('X5', '_split (split/rsplit) with an explicit separator: piece texts as str, pieces keep their settings at '
-                    'their true offsets', ['C10', 'C11'], 'U', ['AnsiString._split'], split_items, split_task,
+                    'their true offsets', ['C10', 'C11'], 'U', ['AnsiString._split', 'AnsiString.split', 'AnsiString.rsplit'], split_items, split_task,
                     bounds='results of at most 3 pieces (bounded); text length, separator, maxsplit and table unbounded; '
                     'str.split/find under assumed contracts', assumes=['G2', 'SL']))
 
@@ -530,27 +532,7 @@ CL_REPLACE = [
 RAISES_REPLACE = {'TypeError': None}
 
 
-def char_text(c, tag, n, lo=None, hi=None, esc_free=False):
-    cps = []
-    for i in range(n):
-        cp = c.named_int('%s%d' % (tag, i), lo, hi) if lo is not None else c.named_int('%s%d' % (tag, i), 0, 0x10FFFF)
-        if esc_free:
-            c.assume(i_cmp('!=', cp, 27))
-        cps.append(cp)
-    return sym.s_from_chars(cps)
-
-
-def hybrid_string(c, tag, n):
-    """AnsiString with an abstract well-formed table over a text of n symbolic characters"""
-    ab.install(c)
-    tb = ab.fresh_table(c, 'tbl_' + tag)
-    text = char_text(c, 'c' + tag, n)
-    obj = PObj('AnsiString', {'_fmts': tb, '_s': text})
-    if not hasattr(c, 'abs_tables'):
-        c.abs_tables = []
-    c.abs_tables.append(tb)
-    c.assume(ab.WFP(tb.term, sym.Z(n)))
-    return obj
+from contracts_helpers import char_text, hybrid_string  # noqa: E402
 
 
 def x6_items(tier):
@@ -699,13 +681,17 @@ def x8_task(envr, item):
         if which == 'splitlines':
             run_contract(envr, c, 'AnsiString.splitlines', s, [keep], {}, CL_PIECES, fields=fields)
         else:
-            run_contract(envr, c, 'AnsiString._split', s, [None, ms, bool(right)], {}, CL_PIECES, fields=fields)
+            if ms == -1 and not right:
+                run_contract(envr, c, 'AnsiString.split', s, [], {}, CL_PIECES, fields=fields)    # all defaults
+            else:
+                run_contract(envr, c, 'AnsiString.rsplit' if right else 'AnsiString.split', s, [None, ms], {}, CL_PIECES,
+                             fields=fields)
     return ContractRun(body, CL_PIECES, use=('ABS',))
 
 
 GROUPS.append(Group('X8', 'splitlines(keepends) and split / rsplit on whitespace: piece texts as str returns them, every piece keeps '
                     'the settings of the original at its true offset (computed from the line / whitespace structure, not by '
-                    'searching)', ['C10', 'C11'], 'B', ['AnsiString.splitlines', 'AnsiString._split'], x8_items, x8_task,
+                    'searching)', ['C10', 'C11'], 'B', ['AnsiString.splitlines', 'AnsiString._split', 'AnsiString.split', 'AnsiString.rsplit'], x8_items, x8_task,
                     bounds='text length L<=4/5 with symbolic characters (all of Unicode: every line-break and whitespace class); '
                     'maxsplit -1..2; tables abstract (unbounded)', assumes=['G2', 'SL']))
 
